@@ -580,6 +580,26 @@ func (l *Lexer) SkipStreamEOL() error {
 // ReadBytes reads exactly n bytes from the underlying reader.
 // Used for reading binary stream data where tokenization is not appropriate.
 func (l *Lexer) ReadBytes(n int) ([]byte, error) {
+	if n < 0 {
+		return nil, fmt.Errorf("invalid byte count: %d", n)
+	}
+	// n comes from the file (a stream's /Length). Never allocate more than a
+	// bounded amount up front: read large requests piecewise so that a bogus
+	// length fails with "unexpected EOF" instead of exhausting memory.
+	const maxUpfront = 1 << 20
+	if n > maxUpfront {
+		var buf bytes.Buffer
+		read, err := io.CopyN(&buf, l.reader, int64(n))
+		l.pos += read
+		if err == io.EOF {
+			return buf.Bytes(), fmt.Errorf("unexpected EOF: expected %d bytes, got %d", n, read)
+		}
+		if err != nil {
+			return buf.Bytes(), err
+		}
+		return buf.Bytes(), nil
+	}
+
 	data := make([]byte, n)
 	totalRead := 0
 
